@@ -17,9 +17,9 @@
 
 #define sexp_hash_resize_check(n, len) (((n)*3) > ((len)>>2))
 
-static sexp_uint_t string_hash (char *str, sexp_uint_t bound) {
+static sexp_uint_t string_hash (char *str, sexp_uint_t len, sexp_uint_t bound) {
   sexp_uint_t acc = FNV_OFFSET_BASIS;
-  while (*str) {acc *= FNV_PRIME; acc ^= *str++;}
+  for ( ; len > 0; len--) {acc *= FNV_PRIME; acc ^= *str++;}
   return acc % bound;
 }
 
@@ -29,12 +29,13 @@ sexp sexp_string_hash (sexp ctx, sexp self, sexp_sint_t n, sexp str, sexp bound)
   else if (! sexp_fixnump(bound))
     return sexp_type_exception(ctx, self, SEXP_FIXNUM, bound);
   return sexp_make_fixnum(string_hash(sexp_string_data(str),
+                                      sexp_string_size(str),
                                       sexp_unbox_fixnum(bound)));
 }
 
-static sexp_uint_t string_ci_hash (char *str, sexp_uint_t bound) {
+static sexp_uint_t string_ci_hash (char *str, sexp_uint_t len, sexp_uint_t bound) {
   sexp_uint_t acc = FNV_OFFSET_BASIS;
-  while (*str) {acc *= FNV_PRIME; acc ^= sexp_tolower((unsigned char)*str++);}
+  for ( ; len > 0; len--) {acc *= FNV_PRIME; acc ^= sexp_tolower((unsigned char)*str++);}
   return acc % bound;
 }
 
@@ -44,6 +45,7 @@ sexp sexp_string_ci_hash (sexp ctx, sexp self, sexp_sint_t n, sexp str, sexp bou
   else if (! sexp_fixnump(bound))
     return sexp_type_exception(ctx, self, SEXP_FIXNUM, bound);
   return sexp_make_fixnum(string_ci_hash(sexp_string_data(str),
+                                         sexp_string_size(str),
                                          sexp_unbox_fixnum(bound)));
 }
 
@@ -81,6 +83,16 @@ static sexp_uint_t hash_one (sexp ctx, sexp obj, sexp_uint_t bound, sexp_sint_t 
 #endif
           for (i=0; i<right_size; i++) {acc *= FNV_PRIME; acc ^= p_right[i];}
         }
+#if !SEXP_USE_PACKED_STRINGS
+        /* a string is its own bytes: equal strings can share a longer */
+        /* byte store at different offsets */
+        if (sexp_stringp(obj)) {
+          p_right = sexp_string_data(obj);
+          right_size = sexp_string_size(obj);
+          for (i=0; i<right_size; i++) {acc *= FNV_PRIME; acc ^= p_right[i];}
+          return (bound ? acc % bound : acc);
+        }
+#endif
         /* hash eq-object slots */
         len = sexp_type_num_eq_slots_of_object(t, obj);
         if (len > 0) {
